@@ -277,6 +277,58 @@ class LineLoop(Stage):
         return res
 
 
+class Described(Stage):
+    """protocol-aware histories (described interfaces, binds, deletes, messages newer than the shipped descriptions, nil and
+    array arguments) through the whole pipeline: the recorded message of every line must still be the message the line
+    denotes (direction, target id, name, argument kinds and values) once resolution against the descriptions has run"""
+    name = 'described'
+
+    def examples(self, tier):
+        return 250 if tier == 'quick' else 14 * 2500
+
+    def gen(self, d, tier):
+        from .. import histgen
+        profile = dict(reuse=0.4, server_reuse=0.3, weights=dict(delete=8, bind=12, message=30, server_event=10, deep=2, sync=3, enum=8, title=3,
+                                                               retype=3, newer=14, nulls=8, arrays=6, kinds=8, freeform=6, midsession=6))
+        specs = histgen.history(d, nconn=d.int(1, 2), nmsg=d.int(4, 30), profile=profile)
+        return dict(dialect=d.choice(['new', 'new', 'old']), specs=specs)
+
+    def execute(self, case):
+        from .. import session, histgen
+        res = Result()
+        specs, dialect = case['specs'], case.get('dialect', 'new')
+        s = session.run_history(specs, dialect)
+        got = s.messages()
+        res.evals = len(specs)
+        if s.err.buffer:
+            res.bad('described:error-stream', 'error stream: %r' % s.err.buffer[-300:])
+        if len(got) != len(specs):
+            res.bad('described:message-count', '%d message lines went in, %d messages were recorded' % (len(specs), len(got)))
+        for sp, m in zip(specs, got):
+            line = wire.render(sp, dialect)
+            if m.sent != sp['sent'] or m.obj.id != sp['id'] or m.name != sp['name']:
+                res.bad('described:head', '%r recorded as %s' % (line, str(m)))
+                break
+            if len(m.args) != len(sp['args']):
+                res.bad('described:argcount', '%r recorded with %d arguments: %s' % (line, len(m.args), str(m)))
+                break
+            for i, (g, a) in enumerate(zip(m.args, sp['args'])):
+                g, e = arg_desc(g), expect_arg(a, dialect)
+                if g[0] in ('Object', 'New'): g = g[:2]
+                if e[0] in ('Object', 'New'): e = e[:2]
+                ok = g == e
+                if not ok and e[0] == 'Float' and g[0] == 'Float' and dialect == 'old':
+                    ok = abs(g[1] - e[1]) <= 0.5e-6 + abs(e[1]) * 2.0 ** -48
+                if not ok:
+                    res.bad('described:arg:%s->%s' % (a[0], g[0]), '%r argument %d recorded as %r, denotes %r' % (line, i, g, e))
+        labels = histgen.labels_of(specs)
+        for l in labels:
+            res.label(l)
+        res.nontrivial = len(specs) >= 4
+        res.sample = dict(dialect=dialect, lines=[wire.render(m, dialect) for m in specs[:8]], n=len(specs))
+        return res
+
+
 CHATTER = string.ascii_letters + string.digits + ' .,:;()[]{}<>@#-_=+*/!?\'|~%&$^`éü'
 
 
@@ -355,10 +407,10 @@ class C01(Prop):
             'printed by a port of wl_closure_print in old/old-comma/current(/queue) form and decoded; non-trivial = >=2 arguments, or a '
             'string with a separator character or a look-alike string, or a connection/queue tag; distinct by SHA-1 of the case. '
             'nonmessage: chatter without timestamp-shaped token, blanks and near-misses of valid lines; non-trivial = not blank. line-loop: 1-5 such lines '
-            '(strings up to 9000 characters) through the line loop and the live view; the shown line must be the message the line denotes.')
+            '(strings up to 9000 characters) through the line loop and the live view; the shown line must be the message the line denotes. described: protocol-aware histories (histgen, incl. messages newer than the shipped XML, nil/array/enum arguments) through the whole pipeline; the recorded message of every line is compared field by field with the spec; non-trivial = >= 4 lines.')
     assumptions = ['wire.py is a faithful port of libwayland wl_closure_print (old dialect checked byte-for-byte against the shipped sample logs)',
                    'strings exclude \'"\' and backslash, ids exclude 0, no `discarded` lines (stated bounds of the property)']
-    stages = [RoundTrip(), NonMessages(), LineLoop()]
+    stages = [RoundTrip(), NonMessages(), LineLoop(), Described()]
 
 
 PROP = C01()
